@@ -186,6 +186,27 @@ pub fn case(ctx: &mut Ctx, idx: u64) {
                     Err(e) => format!("{e:?}"),
                 }),
             ),
+            // everything else the library answers about a map: the features promise "no result changes", not only no star rating
+            (
+                "map_api",
+                Box::new(|| {
+                    format!(
+                        "suspicion={:?}|bpm={:?}|breaks={:?}|attributes={}|windows={:?}",
+                        map.check_suspicion(),
+                        map.bpm(),
+                        map.total_break_time(),
+                        dump(&map.attributes().difficulty(&d).build()),
+                        map.attributes().difficulty(&d).hit_windows()
+                    )
+                }),
+            ),
+            (
+                "convert",
+                Box::new(|| match map.convert_ref(mode, &spec.mods.to_gamemods(mode)) {
+                    Ok(c) => format!("{:?}", c.as_ref()),
+                    Err(e) => format!("{e:?}"),
+                }),
+            ),
             (
                 "gradual_difficulty",
                 Box::new(|| match api::gradual(dg.clone(), &map, mode) {
